@@ -17,7 +17,7 @@ ASSUMPTIONS = [
     "the report grammar is the current one: blocks introduced by a line of 160 '=', lines 'label : value' with the 14 current labels",
 ]
 RULE = ("run = pool of named games + 3-12 ops from {write input file in one of 5 textual styles under inputs/, another directory "
-        "or an absolute path; CLI run (restart, main() -f path [-s] [-l]); the same reader/run_games/writer calls made from one long-lived session with the file rewritten in between; under seeded clock/log level/stack depth, optionally with "
+        "or an absolute path; CLI run (restart, main() -f path [-s] [-l]); the same reader/run_games/writer calls made from one long-lived session with the file rewritten in between (also by a same-length edit within the simulated mtime granularity), and with OSError/Ctrl-C inside a save after which the session carries on; under seeded clock/log level/stack depth, optionally with "
         "OSError at open/n-th write/close of the report or open/read of the input, or Ctrl-C/kill at a seeded step inside report "
         "writing; plant a longer/torn/garbage report at the target; restart}; non-trivial = a saved report with >=2 blocks checked, "
         "or an overwrite of a different earlier report, or a fired I/O fault/interrupt; distinct = hash of (op shapes, game hashes, faults fired)")
@@ -66,11 +66,23 @@ def gen(rng, tier, ctx):
         if session and r < 0.7:
             if r < 0.25:
                 opl.append(write(pth))
+            elif r < 0.4:
+                opl.append({"op": "tweak_input", "dir": pth[0], "stem": pth[1], "ext": pth[2],
+                            "pick": rng.randint(0, 99), "coarse": rng.random() < 0.6})
             op = {"op": "lib", "dir": pth[0], "stem": pth[1], "ext": pth[2], "save": rng.random() < 0.8}
             if klass == "faulty":
                 env = common.gen_env(rng, True)
                 if env:
                     op["env"] = env
+                f = rng.random()
+                if f < 0.25:
+                    on = rng.choice(["open", "write", "write", "close"])
+                    op["fs_faults"] = [{"on": on, "mode": "w", "nth": 1 if on != "write" else rng.randint(1, 40),
+                                        "errno": rng.choice(["ENOSPC", "EIO", "EACCES"]), "partial": rng.choice([0, 0.5])}]
+                    op["save"] = True
+                elif f < 0.4:
+                    op["interrupt"] = {"frac": rng.random(), "phase": rng.choice(["report", "any"])}
+                    op["save"] = True
             opl.append(op)
             continue
         if r < 0.2:
@@ -117,6 +129,8 @@ def readable(spec):
 def simplify(spec):
     ops_ = spec["ops"]
     for i, op in enumerate(ops_):
+        if op["op"] == "tweak_input" and op.get("coarse"):
+            yield dict(spec, ops=ops_[:i] + [dict(op, coarse=False)] + ops_[i + 1:])
         if op["op"] == "write_input" and len(op["games"]) > 1:
             for j in range(len(op["games"])):
                 yield dict(spec, ops=ops_[:i] + [dict(op, games=op["games"][:j] + op["games"][j + 1:])] + ops_[i + 1:])
@@ -203,7 +217,7 @@ def execute(spec, w, ctx):
                 c2["log"] = "i"
             return ops.solver_lib(w, path, bool(op.get("save")), c2, cap)
         log = op.get("log")
-        if log in ("d", "dd") and sum(usable[g][1] for g in files.get(rel, [])) > 30000:
+        if log in ("d", "dd") and files.get(rel, {}).get("steps", 0) > 30000:
             log = "i"       # debug logging emits a record per state per sweep: minutes for long solves
         return ops.solver_cli(w, path, bool(op.get("save")), log, cfg, op.get("entropy", 0), cap)
 
@@ -221,11 +235,43 @@ def execute(spec, w, ctx):
             if not games:
                 continue
             path, rel = _path(w, op)
-            text = textstyle.render({pool[g]["name"]: dec(pool[g]["desc"]) for g in games}, op["style"], op.get("seed", 0))
+            denoted_now = {pool[g]["name"]: dec(pool[g]["desc"]) for g in games}
+            text = textstyle.render(denoted_now, op["style"], op.get("seed", 0))
             w.fs.write_text(rel, text)
-            files[rel] = games
+            files[rel] = {"games": denoted_now, "steps": sum(usable[g][1] for g in games), "style": op["style"],
+                          "seed": op.get("seed", 0), "len": len(text)}
             events.append([i_op, "write_input", rel, [pool[g]["name"] for g in games], op["style"], h(text)])
             shapes.append("w%d%s" % (len(games), op["style"][0]))
+            continue
+        if kind == "tweak_input":
+            # an editor changes one digit and saves: same length, and (coarse) within the mtime granularity
+            path, rel = _path(w, op)
+            rec = files.get(rel)
+            if rec is None:
+                continue
+            import copy
+            new = copy.deepcopy(rec["games"])
+            names = sorted(new)
+            nm = names[op.get("pick", 0) % len(names)]
+            rw = new[nm].get("rewards")
+            idxs = [k for k, x in enumerate(rw or []) if type(x) is int and 1 <= x <= 8]
+            if not idxs:
+                continue
+            k = idxs[op.get("pick", 0) % len(idxs)]
+            rw[k] += 1
+            e = enc({f: new[nm].get(f) for f in ops.FIELDS})
+            rp = common.ref_solve(ctx, e, True)
+            ok = rp["status"] == "ok" and common.ref_solve(ctx, e, False)["status"] == "ok"
+            ok = ok or (rp["status"] == "exc" and rp["etype"] == "ValueError")
+            text = textstyle.render(new, rec["style"], rec["seed"])
+            if not ok or len(text) != rec["len"]:
+                discards["tweak-not-applicable"] = discards.get("tweak-not-applicable", 0) + 1
+                continue
+            w.fs.write_text(rel, text, advance=not op.get("coarse"))
+            rec["games"] = new
+            w.fired("same-length-rewrite" + ("-same-mtime" if op.get("coarse") else ""))
+            events.append([i_op, "tweak_input", rel, nm, k, h(text)])
+            shapes.append("t")
             continue
         if kind == "plant":
             rel = "outputs/%s.txt" % op["stem"]
@@ -240,15 +286,15 @@ def execute(spec, w, ctx):
         path, rel = _path(w, op)
         if rel not in files:
             continue
-        games = files[rel]
-        denoted = {pool[g]["name"]: dec(pool[g]["desc"]) for g in games}
+        denoted = files[rel]["games"]
+        est = files[rel]["steps"]
         cfg = common.env_cfg(op)
-        cfg["step_cap"] = 20 * sum(usable[g][1] for g in games) + 200000
+        cfg["step_cap"] = 20 * est + 200000
         if op.get("fs_faults"):
             cfg["fs_faults"] = op["fs_faults"]
         before = w.fs.snapshot()
         intr = op.get("interrupt")
-        if intr and sum(usable[g][1] for g in games) > 120000:
+        if intr and est > 120000:
             intr = None         # fine-grained stepping of a long solve costs minutes; run it as a plain op
             discards["interrupt-skipped-long-solve"] = discards.get("interrupt-skipped-long-solve", 0) + 1
         if intr:
